@@ -21,19 +21,21 @@ func init() {
 		Title: "Interrupts and abnormal exits: prompt delivery, clean unwind, reusable runtime",
 		Rule: fmt.Sprintf("programs = every nesting (quick: depth 1, thorough: depth <= 2; throw family: depth <= 2 in both tiers) of the %d context wrappers around each body; ", len(wrappers)) +
 			"one case = (program, injection): interrupt families inject at EVERY evaluation step k of the program (non-terminating bodies: k <= 60 quick, k <= 200 / 100 at depth 1 / 2 thorough), " +
-			"hostpanic at every tick call x 4 payloads, throw/limits have one case per program / grid point; limits-entry = 23 Go-side entry routes at rest x L 0..5 x d around the threshold, each followed by rest-state and threshold-unmoved probes; headroom = 25 parse-failure / eval-abort histories x L x {1,2,L} repetitions x {Run, Otto.Eval}, each followed by the remaining-depth vector on the runtime and on a Copy (must equal a fresh runtime's); every follow-up program of the other families also ends with a one-run headroom probe under limit 8; unbuffered = capacity-0 channel with a sender goroutine parked in the send before Run and at every step k; entry = 11 API entry routes x 4 channel-installation times x {pre-queued, every step k} x {panic, record}. Each case runs on a fresh runtime " +
+			"hostpanic at every tick call x 4 payloads, throw/limits have one case per program / grid point; limits-mixed = every sequence (length <= 4 quick, <= 5 thorough) over {call, direct eval, call trampoline, indirect eval} x L 0..9 against the order-independent unit model; limits-entry = 23 Go-side entry routes at rest x L 0..5 x d around the threshold, each followed by rest-state and threshold-unmoved probes; headroom = 25 parse-failure / eval-abort histories x L x {1,2,L} repetitions x {Run, Otto.Eval}, each followed by the remaining-depth vector on the runtime and on a Copy (must equal a fresh runtime's); every follow-up program of the other families also ends with a one-run headroom probe under limit 8; interrupt-value = 10 panic values of the interrupt function x depth-1 wrappers x every step k; unbuffered = capacity-0 channel with a sender goroutine parked in the send before Run and at every step k; entry = 11 API entry routes x 4 channel-installation times x {pre-queued, every step k} x {panic, record}. Each case runs on a fresh runtime " +
 			"(plus a follow-up program and a second injected run on the same runtime). A case is non-trivial when the injection lands while the " +
 			"runtime is not at global level (a function/native frame, a pending label or a try/catch block is active at step k) or, for the " +
 			"throw/hostpanic/limits families, when the abnormal exit crosses at least one wrapper frame.",
 		Families: []engine.Family{
 			// cheapest first, so that a run that hits its time budget has completed the small families
 			{Name: "limits", Run: runLimits},
+			{Name: "limits-mixed", Run: runLimitsMixed},
 			{Name: "limits-entry", Run: runLimitsEntry},
 			{Name: "headroom", Run: runHeadroomFamily},
 			{Name: "entry", Run: runEntryFamily},
 			{Name: "unbuffered", Run: runUnbufferedFamily},
 			{Name: "throw", Run: runThrow},
 			{Name: "hostpanic", Run: runHostPanic},
+			{Name: "interrupt-value", Run: runInterruptValue},
 			{Name: "interrupt-record", Run: runInterruptRecord},
 			{Name: "interrupt-panic", Run: runInterruptPanic},
 		},
@@ -53,6 +55,8 @@ func init() {
 	})
 	engine.RegisterSignature("c18-foreign-panic-in-try", sigForeignPanicInTry)
 	engine.RegisterSignature("c18-rethrown-error-in-try", sigRethrownErrorInTry)
+	engine.RegisterSignature("c18-interrupt-primitive-caught", sigInterruptPrimitiveCaught)
+	engine.RegisterSignature("c18-eval-units-ignored-by-frames", sigEvalUnitsIgnoredByFrames)
 }
 
 // convText is how tryCatchEvaluate's toValue(caught) fails for a panic value it
